@@ -538,8 +538,13 @@ SUBS = [
     Sub("in-group", judge_in_group, strategy=in_group_st, quick=2000, thorough=50000),
 ]
 
+# coverage-guided twins (fuzz/fuzz_hyp.py): atheris mutates the bytes Hypothesis decodes into cases of the same strategy
+SUBS += [__import__("lib.harness", fromlist=["x"]).cov_sub('C13', s_) for s_ in list(SUBS) if s_.name in ('address',)]
+
 MANIFEST = {
     "technique": "property-based differential testing: subnet_of / in answers compared with exact bit-algebra inclusion on derived address pairs in every spelling",
     "text": "exploration: equality with exact set inclusion on thousands (quick) / hundreds of thousands (thorough) of plain address pairs across spellings and platforms, implication for grouped addresses, exact membership for address-group members, and ask / re-address (line setter or in-place member edits, incl. an edit the library refuses) / ask histories",
     "note": "trusted: lib/refsem.py inclusion algebra; k<=4 non-contiguous bits; group members contiguous (native member syntax); AddrGroup-in-AddrGroup not asserted",
 }
+MANIFEST["engine"] += " + atheris (coverage-guided twins of the Hypothesis sub-checks, fuzz/fuzz_hyp.py: 2 jobs x 8 s quick, 8 jobs x 200 s thorough)"
+MANIFEST["technique"] += "; plus coverage-guided fuzzing of the same strategies (atheris/libFuzzer mutates the byte stream Hypothesis decodes into cases, the same oracle runs inside the target, findings are re-judged outside it)"
